@@ -102,11 +102,13 @@ type Interp struct {
 	rankApps []rankApp
 	opaque   map[string]*Term
 	varBound map[int32]uint64
+	known    map[*Term]bool
 	errorStringT types.Type
 	depth    int
 	nchan    int
 	endStatus *pathEnd
 	timeNondet bool
+	randNondet bool
 	initSteps int64
 }
 
